@@ -909,7 +909,12 @@ class List(list, base.Symbolic, pg_typing.CustomTyping):
       else:
         self._allow_partial = allow_partial
     elif isinstance(value_spec, pg_typing.List):
-      self._value_spec = value_spec
+      # NOTE: a field with a user transform applies its transform-free twin to
+      # the transformed value (`skip_user_transform`); binding the spec in this
+      # first pass would make the second one take the value for one that was
+      # validated already, and nothing would be checked at all.
+      if value_spec.transform is None:
+        self._value_spec = value_spec
     return (proceed_with_standard_apply, self)
 
   def sym_jsonify(
